@@ -27,13 +27,16 @@ ENC_KEY = '5a' * 16 + 'c3' * 16
 ENC_PASSWORD = 'c16 database field password'
 LISTED = [('key', ['encrypt', 'public', 'encrypt']), ('key', ['wif', 'encrypt', 'public']), ('hdkey', ['encrypt', 'public', 'as_dict_priv']),
           ('hdkey', ['info', 'encrypt', 'public'])] + \
-         [('hdkey', pre + ['public_path', 'info', 'as_dict_priv']) for pre in ([], ['wif', 'wif_private']) for _ in range(6)]
+         [('hdkey', pre + ['public_path', 'info', 'as_dict_priv']) for pre in ([], ['wif', 'wif_private']) for _ in range(6)] + \
+         [('hdkey', ['wif', 'wif_public', 'wif_private', 'public_master', 'reflect']) for _ in range(72)] + \
+         [('key', ['wif', 'public', 'reflect']) for _ in range(3)]    # every argument combination on a private receiver
 
 
 def generate_histories(thorough, seed):
     rc, out = common.run_tlc('LeakGen', 'LeakGen_thorough.cfg' if thorough else 'LeakGen.cfg', workers=1, timeout=1200)
     hs = common.tlc_printed(out, 'HIST')
-    if rc != 0 or not hs:
+    args = common.tlc_printed(out, 'ARGS')
+    if rc != 0 or not hs or not args:
         raise MachineryError('generation of call histories failed:\n' + out[-3000:])
     rc, out = common.run_tlc('LeakGen', 'LeakGen_sim.cfg', workers=1, timeout=1200,
                              extra=['-simulate', 'num=%d' % (4000 if thorough else 250), '-depth', '8', '-seed', str(seed % 2 ** 31)])
@@ -43,13 +46,14 @@ def generate_histories(thorough, seed):
     uniq = {}
     for h in sim:
         uniq[(h['start'], tuple(h['hist']))] = h
-    return hs, list(uniq.values())[:(4000 if thorough else 250)]
+    return hs, list(uniq.values())[:(4000 if thorough else 250)], args[0]
 
 
 def describe_key(res):
     parts = []
     for st, wh in zip(res['rec']['steps'], res['where']):
-        s = st['c'] + ('' if st['ok'] else '[refused]')
+        args = ','.join('%s=%s' % (k, v) for k, v in sorted(st['a'].items()) if v != 'none' and not (k == 'form' and v == 'named'))
+        s = st['c'] + ('(%s)' % args if args else '') + ('' if st['ok'] else '[refused]')
         if wh['out']:
             s += ' out=%s' % sorted(wh['out'])
         if wh['held']:
@@ -81,16 +85,19 @@ def run(replay=None):
 
     timing = {'model_s': round(time.time() - ck.t0, 1)}
     key_jobs, wallet_jobs, db_jobs = [], [], []
+    argspace = {}
     if replay:
         c = replay['case']
         if c['kind'] == 'key':
             key_jobs = [(c['start'], c['hist'], c['seed'])]
+            argspace = c.get('argspace', {})
         elif c['kind'] == 'wallet':
             wallet_jobs = [(c['seed'], c['wkind'], c['hist'])]
         else:
             db_jobs = [(c['seed'], c['mode'])]
     else:
-        hs, sim = generate_histories(thorough, seed)
+        hs, sim, argspace = generate_histories(thorough, seed)
+        ck.notes['argument_combinations'] = {c: len(v) for c, v in argspace.items()}
         ck.notes['generated_histories'] = len(hs)
         ck.notes['simulated_histories'] = len(sim)
         for n, h in enumerate(hs + sim + [{'start': a, 'hist': b} for a, b in LISTED]):
@@ -123,7 +130,7 @@ def run(replay=None):
             return []
         nchunk = max(1, min(len(key_jobs), common.NCPU * 6))
         chunks = [key_jobs[i::nchunk] for i in range(nchunk)]
-        res = common.pmap(c16_drv.key_worker, chunks, procs=min(common.NCPU, 12))
+        res = common.pmap(c16_drv.key_worker, [(argspace, ch) for ch in chunks], procs=min(common.NCPU, 12))
         flat = [None] * len(key_jobs)
         for ci, rs in enumerate(res):
             for j, r in enumerate(rs):
@@ -185,7 +192,9 @@ def run(replay=None):
             ck.case((wh['kind'], wh['private'], st['c'], st['ok'], tuple(st['os']), tuple(st['hs'])))
             key = (r['rec']['start'], st['c'])
             performed[key] = performed.get(key, 0) + (1 if st['ok'] else 0)
-        report(v, describe_key(r), {'kind': 'key', 'start': job[0], 'hist': list(job[1]), 'seed': job[2]})
+        used = {st['c'] for st in r['rec']['steps']}
+        report(v, describe_key(r), {'kind': 'key', 'start': job[0], 'hist': list(job[1]), 'seed': job[2],
+                                    'argspace': {c: a for c, a in argspace.items() if c in used}})
     for job, r, v in zip(wallet_jobs, wres, vw):
         ck.traces += 1
         for st, wh in zip(r['rec']['steps'], r['where']):
